@@ -27,6 +27,9 @@ func init() { hk.Register("c18", Run) }
 type Case struct {
 	H    [][]int `json:"h"`    // parent lists, by creation index (parents are earlier indices)
 	Salt int     `json:"salt"` // varies the commit messages, hence the addresses and their byte order
+	// Amend[i] = j: commit i is written with CommitOptions.AmendedCommit = address of commit j on j's
+	// dataset (dolt commit --amend / squash: same parents as j, j's branch then points at i).
+	Amend map[string]int `json:"amend,omitempty"`
 }
 
 type Obs struct {
@@ -55,6 +58,11 @@ func BranchName(i int) string { return fmt.Sprintf("b%d", i) }
 // Build creates one commit per entry of h; commit i is the head of its own branch b<i>.
 // onCreated (may be nil) is called after each commit is written.
 func Build(ctx context.Context, h [][]int, salt int, onCreated func(g *Graph, i int) error) (*Graph, error) {
+	return BuildAmend(ctx, h, salt, nil, onCreated)
+}
+
+// BuildAmend is Build with amend commits: amend[i] = j writes commit i as an amendment of commit j.
+func BuildAmend(ctx context.Context, h [][]int, salt int, amend map[int]int, onCreated func(g *Graph, i int) error) (*Graph, error) {
 	storage := &chunks.TestStorage{}
 	cs := storage.NewViewWithDefaultFormat()
 	ddb, err := doltdb.DoltDBFromCS(cs, "verif")
@@ -70,14 +78,23 @@ func Build(ctx context.Context, h [][]int, salt int, onCreated func(g *Graph, i 
 			}
 			parents[j] = g.Addrs[p]
 		}
-		ds, err := g.DB.GetDataset(ctx, "refs/heads/"+BranchName(i))
+		dsName := "refs/heads/" + BranchName(i)
+		var amended hash.Hash
+		if j, ok := amend[i]; ok {
+			if j < 0 || j >= i {
+				return nil, fmt.Errorf("commit %d: amends %d which is not an earlier commit", i, j)
+			}
+			dsName = "refs/heads/" + BranchName(j)
+			amended = g.Addrs[j]
+		}
+		ds, err := g.DB.GetDataset(ctx, dsName)
 		if err != nil {
 			return nil, err
 		}
 		when := datas.CommitDateAt(time.UnixMilli(int64(1000 * (i + 1))))
 		id := datas.CommitIdent{Name: "v", Email: "v@v", Date: when}
 		meta := &datas.CommitMeta{Author: id, Committer: id, Description: fmt.Sprintf("c%d-%d", i, salt)}
-		ds, err = g.DB.Commit(ctx, ds, types.String(fmt.Sprintf("v%d", i)), datas.CommitOptions{Parents: parents, Meta: meta})
+		ds, err = g.DB.Commit(ctx, ds, types.String(fmt.Sprintf("v%d", i)), datas.CommitOptions{Parents: parents, Meta: meta, AmendedCommit: amended})
 		if err != nil {
 			return nil, fmt.Errorf("commit %d: %w", i, err)
 		}
@@ -222,7 +239,15 @@ func Run(raw json.RawMessage) (any, error) {
 	ctx := context.Background()
 	snaps := []snapshot{}
 	unstable := ""
-	g, err := Build(ctx, c.H, c.Salt, func(g *Graph, i int) error {
+	amend := map[int]int{}
+	for k, v := range c.Amend {
+		var i int
+		if _, err := fmt.Sscanf(k, "%d", &i); err != nil {
+			return nil, err
+		}
+		amend[i] = v
+	}
+	g, err := BuildAmend(ctx, c.H, c.Salt, amend, func(g *Graph, i int) error {
 		s, err := g.snap(ctx, i)
 		if err != nil {
 			return err
